@@ -42,10 +42,25 @@ def _check_number(res, name, m, v, spanf, transp, optsets=({},)):
                 if opts:
                     m.validate(w, **opts)
                     ok = True
+                    try:
+                        # is_valid() with the same option, where it takes it, must reject as well
+                        ok2 = m.is_valid(w, **opts)
+                    except TypeError:
+                        ok2 = False
+                    except Exception:
+                        ok2 = False
                 else:
                     ok = m.is_valid(w)
+                    ok2 = False
             except Exception:
                 ok = False    # rejected (other exceptions are C01's business)
+                ok2 = False
+                if opts:
+                    try:
+                        ok2 = m.is_valid(w, **opts) is True
+                    except Exception:
+                        ok2 = False
+            ok = ok or ok2
             if ok:
                 res.viol(ID, 'accepted-mutant', name, 'is_valid' if not opts else 'validate',
                          {'module': name, 'valid': v, 'mutant': w, 'options': {k: core.enc(x) for k, x in opts.items()}},
@@ -80,7 +95,7 @@ def work(item):
     from ..tables.options import option_sets
     optsets = [o for o in option_sets(name, m.validate)[0]
                if not o or list(o)[0] in ('convert', 'strip_check_digits', 'add_check_digits', 'check_country',
-                                           'allow_temporary', 'validate_manufacturer')]
+                                           'allow_temporary', 'validate_manufacturer', 'table', 'alphabet')]
     for v in values:
         if guard and not guard(v):
             continue
